@@ -199,7 +199,8 @@ pub fn history_size(h: &History) -> usize {
 pub fn minimise_history(h0: &History, fails: &dyn Fn(&History) -> bool) -> (History, u64) {
     let mut h = h0.clone();
     let mut attempts = 0u64;
-    let cap = 4000u64;
+    // (histories of 10^5 operations take a noticeable fraction of a second each: fewer attempts)
+    let cap = if h0.ops.len() > 20_000 { 150u64 } else { 4000u64 };
     // ddmin
     let mut n = 2usize;
     while h.ops.len() >= 2 && attempts < cap {
